@@ -366,6 +366,30 @@ def _plane_mix(tier):
     return out
 
 
+def _plane_precond(tier):
+    """documented preconditioner options of the Krylov methods (Jacobi preconditioner diag(A)^-1 as a
+    LinearOperator): cg(precond), bicgstab(precond_l / precond_r / both).  The solution does not depend on the
+    preconditioner; n = 24, kappa = 30 so that the iteration does not end by exhausting the space"""
+    out = []
+    for dtype in ["f64", "c128"]:
+        for kind in ["dense_auto", "mv"]:
+            for (em, ed) in [("none", "-"), ("E", "real")]:
+                if dtype == "c128" and em == "E":
+                    ed = "complex"
+                for n in (6, 24):
+                    for (method, pcs, specs) in (("cg", ["p"], ["spd"]), ("bicgstab", ["l", "r", "lr"], SPECS)):
+                        for spec in specs:
+                            if not kind_ok(kind, spec, dtype):
+                                continue
+                            for pc in pcs:
+                                c = mk(plane="precond", method=method, opkind=kind, E=em, Edtype=ed, dtype=dtype,
+                                       spec=spec, n=n, ncols=2, kappa=(30.0 if n == 24 else 3.0), tol="std",
+                                       **_pat(em, BATCH3[0]))
+                                c["precond"] = pc
+                                out.append(c)
+    return out
+
+
 def _plane_sing(tier):
     """one batch element of magnitude 1e8 whose first shifted system is EXACTLY singular (upper triangular A, shift
     equal to a diagonal entry: the direct solve takes its retry branch) next to a well-conditioned element of
@@ -409,6 +433,7 @@ def cases(tier, seed):
     out += _plane_mix(tier)
     out += _plane_budget(tier)
     out += _plane_sing(tier)
+    out += _plane_precond(tier)
     out += _plane_reject(tier)
     out += _plane_op(tier, vseeds)
     out += _plane_batch(tier)
@@ -417,7 +442,7 @@ def cases(tier, seed):
     out += _plane_slice(tier)
     out += _plane_f32(tier)
     # canonical order: simplest first (stable sort on a few size keys)
-    order = {"reject": 0, "op": 1, "batch": 2, "rhs": 3, "slice": 4, "f32": 5, "opt": 6, "scale": 7, "mix": 8, "budget": 9, "sing": 10}
+    order = {"reject": 0, "op": 1, "batch": 2, "rhs": 3, "slice": 4, "f32": 5, "opt": 6, "scale": 7, "mix": 8, "budget": 9, "sing": 10, "precond": 11}
     out.sort(key=lambda c: (order[c["plane"]], c["vseed"] != 0, c["n"] * c["ncols"]))
     return out
 
@@ -524,6 +549,17 @@ def mk_ops(cfg, p):
 def run_solve(cfg, A, B, E, M):
     import xitorch.linalg
     opts = solver_options(cfg)
+    pc = cfg.get("precond")
+    if pc:
+        from xitorch import LinearOperator
+        Ad = A.fullmatrix().detach()
+        P = LinearOperator.m(torch.diag_embed(1.0 / torch.diagonal(Ad, dim1=-2, dim2=-1)))
+        if pc == "p":
+            opts["precond"] = P
+        if "l" in pc:
+            opts["precond_l"] = P
+        if "r" in pc:
+            opts["precond_r"] = P
     torch.manual_seed(20240)        # the posdef probe draws torch.randn
     with sc.quiet_stderr():         # LAPACK prints parameter complaints for gmres' empty least-squares problem
         return call(xitorch.linalg.solve, A, B, E, M, method=cfg["method"], **opts)
